@@ -6,6 +6,7 @@ import (
 	"math/big"
 	"regexp"
 	"sort"
+	"strings"
 	"time"
 
 	"github.com/fxamacker/cbor/v2"
@@ -527,6 +528,8 @@ func RawValues(s *Spec) []any {
 			out = append(out, denseStrings()...)
 		}
 		out = append(out, "b", "a\n", "é", "1", "true")
+		// long values (error messages quote or shorten them): ASCII, two-byte and three-byte characters
+		out = append(out, strings.Repeat("a", 100), strings.Repeat("é", 40), strings.Repeat("日本語", 10), strings.Repeat("a", 63)+"é")
 		for _, n := range []int64{0, 1, 12, -3} {
 			out = append(out, intReps(n)...)
 		}
